@@ -107,6 +107,7 @@ pk_exec = Function("pk_exec", RSeq, RSeq, RSeq)        # depth-first execution o
 pk_aq = Function("pk_aq", RSeq, RSeq, RSeq, RSeq)      # applyTok tokens Q R: the queue afterwards
 pk_ar = Function("pk_ar", RSeq, RSeq, RSeq, RSeq)      # applyTok tokens Q R: the trace afterwards
 py_ge = Function("py_ge", Ref, Int, Bool)              # opaque value >= int
+selkeys = Function("selkeys", RSeq, Ref, RSeq)         # [k for k in s if k[0] is c]: List.filter on the first component of pair keys
 
 _counter = itertools.count()
 
@@ -279,6 +280,8 @@ def Cnt(s, x):
         return b2i(Cnt(s.arg(0), x) >= 1)
     if _is_uf(s, flt):                    # count_filter
         return ite(keep(s.arg(0), x), Cnt(s.arg(1), x), IntVal(0))
+    if _is_uf(s, selkeys):                # count_filter
+        return ite(eq(pfst(x), s.arg(1)), Cnt(s.arg(0), x), IntVal(0))
     if _is_uf(s, minus):                  # count_diff
         a, p_ = s.arg(0), s.arg(1)
         ca, cp = Cnt(a, x), Cnt(p_, x)
